@@ -153,6 +153,11 @@ CONTROLS = [
         rep(J, "        if self.data_half_used {\n            self.data_half_used = false;\n            (self.data >> 32) as u32\n        } else {\n            self.data = self.next_u64();\n            self.data_half_used = true;\n            self.data as u32\n        }",
             "        if let Some(half) = self.data_half.take() {\n            half\n        } else {\n            let v = self.gen_entropy();\n            self.data = v;\n            self.data_half = Some((v >> 32) as u32);\n            v as u32\n        }"),
         rep(J, "        self.data_half_used = false;\n        self.gen_entropy()", "        self.gen_entropy()")), ["C16"]),
+    ("silent", "S2 jitter LFSR taps in a read-only static table", seq(
+        rep(J, "const MEMORY_BLOCKS: usize = 64;", "const MEMORY_BLOCKS: usize = 64;\nstatic LFSR_TAPS: [u32; 6] = [63, 60, 55, 30, 27, 22];"),
+        rep(J, "                data ^= (data >> 63) & 1;\n                data ^= (data >> 60) & 1;\n                data ^= (data >> 55) & 1;\n                data ^= (data >> 30) & 1;\n                data ^= (data >> 27) & 1;\n                data ^= (data >> 22) & 1;\n",
+            "                for tap in LFSR_TAPS.iter() {\n                    data ^= (data >> *tap) & 1;\n                }\n")), ["C12", "C15", "C19", "C14", "C18"]),
+    ("fire", "S2f new unsafe block in lfsr_time", rep(J, "        black_box(throw_away);", "        let _ = unsafe { core::ptr::read_volatile(&throw_away) };"), ["C18"]),
     ("silent", "S2 xoshiro256++ state accessor added", rep(X + "xoshiro256plusplus.rs", "impl Xoshiro256PlusPlus {\n", "impl Xoshiro256PlusPlus {\n    /// Number of state words.\n    pub fn state_words(&self) -> usize {\n        self.s.len()\n    }\n\n"), ["C14", "C19", "C18", "C10"]),
 ]
 
